@@ -218,6 +218,13 @@ func specialFamilies() []*scaleFam {
 			// (what a store into `-x` yields is not fixed - 7.1 - and is not printed; that `x` is not the target is)
 			{Prog: "BEGIN { x = 2; y = -x = 5; print x; f = 0; z = !f = 7; print f; o = {n: 1}; w = -o.n = 3; print o.n; x = 2; -x += 5; print x; +x *= 3; print x }\n", Want: "2\n0\n1\n2\n2\n"},
 		}),
+		textFam("C14", "what -o writes when a BEGINFILE rule ends the run", []textProg{
+			{Prog: "BEGINFILE { print \"skip\"; exit }\n{ print }\n", Input: `{"a": [1, 2]}`, Root: true},
+			{Prog: "BEGINFILE { c++; if (c == 2) { exit } $.seen = c }\n{ print }\n", Input: `{"v": 1} {"v": 2}`, Root: true},
+			{Prog: "BEGINFILE { $ = [9]; exit }\n", Input: `[1]`, Root: true},
+			{Prog: "BEGIN { exit }\n{ print }\n", Input: `[1]`, Root: true},
+			{Prog: "{ print; exit }\nENDFILE { $ = 0 }\n", Input: `[1, 2] [3]`, Root: true},
+		}),
 		textFam("C15", "arrays of the document changed by methods only, then written", []textProg{
 			{Prog: "BEGINFILE { $.push(4) }\n", Input: `[1, 2, 3]`, Root: true},
 			{Prog: "{ $.items.pop(); $.items.push(\"x\"); t = $.items.popfirst() }\nEND { print t }\n", Input: `{"items": [1, 2, 3], "n": 1}`, Root: true},
